@@ -13,6 +13,11 @@ anchored elsewhere, DA at m = 1 in closed form), over the parameter box includin
 non-decreasing, -> 0).  Section 3b runs point isotherms with closely spaced / very small pressures in every pressure unit and mode,
 queries a hair above/below/at each knot, in every unit/mode of the query (Props/C11/Scale.lean: the fold is invariant under a change
 of pressure unit, continuous across the knots) against the exact-rational fold and an exact-rational reference.
+Sections 3 and 3b run on BOTH branches of hysteretic point isotherms (desorption rows stored after the adsorption rows, in order of decreasing
+pressure): the fold model takes increasing data and is fed the REVERSED stored desorption rows — Props/C11/Branch.lean (`orient` of
+Model/IastPoint.lean reverses strictly decreasing rows = the rows of the branch sorted by increasing pressure; the fold on them is the integral
+of the interpolant through the desorption points).  Every point-isotherm oracle (fold, reference integral, increments, unit / mode of the
+query, knots ± ulp, history) runs with `branch='des'` as well.
 """
 import math
 from fractions import Fraction as Fr
@@ -171,6 +176,22 @@ def exact_ref(ps, ls, q):
         slope = (fl[i + 1] - fl[i]) / (fp[i + 1] - fp[i])
         area += slope * (hi - lo) + (fl[i] - slope * fp[i]) * frac(math.log1p(float((hi - lo) / lo)))
     return float(area)
+
+
+def cond_floor(ps, ls, q):
+    """Rounding floor of the library's own formula, Σ slope_i Δp_i + intercept_i ln(p_{i+1}/p_i): the argument of each logarithm carries one
+    rounding, i.e. an absolute error of one ulp of 1 in the logarithm, times the intercept; each product carries one more.  For a steep chord
+    over a narrow pressure step (e.g. loading 0 → 2.7 between 5.576 and 5.59 bar: intercept -1064) the two terms cancel and this floor, not the
+    relative tolerance, is what the formula can deliver (measured on the unchanged tree: 5.8e-9 relative at Π = 1.5e-5, 9e-14 absolute against a
+    floor of 4e-12).  16 ulp of the summed magnitudes."""
+    tot = 0.0
+    for i in range(len(ps) - 1):
+        if not ps[i] < q:
+            break
+        hi = min(ps[i + 1], q)
+        slope = (ls[i + 1] - ls[i]) / (ps[i + 1] - ps[i])
+        tot += abs(ls[i] - slope * ps[i]) + abs(slope * (hi - ps[i]))
+    return 16 * 2.3e-16 * tot
 
 
 def interp_exact(fp, fl, fq):
@@ -394,58 +415,82 @@ def run(ck):
     ck.cov["origin_anchored"] = {"cases": n_origin, "with_IntegrationWarning": n_warned,
                                  "worst_deviation_over_(1e-4|ref|+1e-7)_without_warning": {k: float(f"{v:.3g}") for k, v in worst0.items()}}
 
-    # ------------------------------------------------------------------ 3. point isotherms: fold model (ℚ) vs the real method
-    nset = ck.n(30, 150)
-    reqs, ctx = [], []
-    for i in range(nset):
+    # ------------------------------------------------------------------ 3. point isotherms: fold model (ℚ) vs the real method, BOTH branches
+    # A hysteretic isotherm stores its desorption rows after the adsorption rows, in order of DECREASING pressure.  The spreading pressure of a
+    # branch is the fold over the rows of that branch in INCREASING order (Props/C11/Branch.lean: `orient` reverses strictly decreasing rows,
+    # `orient_eq_sorted_rows`, `spreadPoint_des_eq_integral`): the exact-rational fold and the reference integral are fed the reversed stored
+    # desorption rows; every oracle below runs on the adsorption and on the desorption branch alike.
+    def rough_branch():
         n = rng.randint(2, 14)
         ps = sorted({round(math.exp(rng.uniform(-4, 2)), rng.randint(2, 6)) for _ in range(n)})
         ps = [p for p in ps if p > 0]
         if len(ps) < 2:
-            continue
+            return None
         if rng.random() < 0.5:
-            ls = list(np.cumsum([rng.uniform(0.05, 2) for _ in ps]))          # increasing
+            ls = [float(v) for v in np.cumsum([rng.uniform(0.05, 2) for _ in ps])]          # increasing
         else:
-            ls = [rng.uniform(0.0, 5) for _ in ps]                            # arbitrary non-negative
+            ls = [rng.uniform(0.0, 5) for _ in ps]                                            # arbitrary non-negative
         if rng.random() < 0.2:
-            ls[0] = 0.0                                                       # nothing adsorbed yet at the first (positive) pressure
-        des = [(ps[-1] * rng.uniform(0.2, 0.9), ls[-1] * 1.2), (ps[0] * 0.5, ls[0] * 1.5)] if rng.random() < 0.5 else []
-        origin = rng.random() < 0.25          # a measured origin (0, 0) in front of the adsorption data
-        data = pd.DataFrame({"pressure": ([0.0] if origin else []) + ps + [d[0] for d in des], "loading": ([0.0] if origin else []) + ls + [d[1] for d in des]})
+            ls[0] = 0.0                                                                       # nothing adsorbed (left) at the lowest positive pressure
+        return ps, ls
+
+    nset = ck.n(30, 150)
+    reqs, ctx = [], []
+    for i in range(nset):
+        ads = rough_branch()
+        if ads is None:
+            continue
+        branches = {"ads": ads + (rng.random() < 0.25,)}          # (pressures, loadings, a measured origin (0, 0) at the low end) — INCREASING order
+        if rng.random() < 0.6:
+            des = rough_branch()
+            if des is not None:
+                branches["des"] = des + (rng.random() < 0.2,)     # desorption followed down to (0, 0)
+        rows_p, rows_l, marks = [], [], []
+        for br, (bp, bl, org) in branches.items():
+            p_inc, l_inc = ([0.0] if org else []) + bp, ([0.0] if org else []) + bl
+            if br == "des":                                       # stored as measured: downwards
+                p_inc, l_inc = p_inc[::-1], l_inc[::-1]
+            rows_p += p_inc
+            rows_l += l_inc
+            marks += [0 if br == "ads" else 1] * len(p_inc)
+        data = pd.DataFrame({"pressure": rows_p, "loading": rows_l})
         iso = pg.PointIsotherm(isotherm_data=data, pressure_key="pressure", loading_key="loading", material="pgv_m", adsorbate="N2",
                                temperature=77.355, pressure_mode="absolute", pressure_unit="bar", loading_basis="molar",
-                               loading_unit="mmol", material_basis="mass", material_unit="g",
-                               branch=[0] * (len(ps) + (1 if origin else 0)) + [1] * len(des))
-        qs = [ps[0] * 0.3, ps[0], ps[-1]] + [rng.uniform(ps[0], ps[-1]) for _ in range(3)] + [rng.choice(ps)]
-        for q in qs:
-            k = sum(1 for p in ps if p < q)
-            # linear interpolant at q (exact rational), logs as the doubles Python computes
-            fp, fl, fq = [frac(p) for p in ps], [frac(l) for l in ls], frac(q)
-            if k == 0:
-                lq = fl[0]
-            else:
-                j = max(jj for jj in range(len(fp)) if fp[jj] < fq)
-                j = min(j, len(fp) - 2)
-                lq = fl[j] + (fl[j + 1] - fl[j]) / (fp[j + 1] - fp[j]) * (fq - fp[j])
-            logs = [frac(math.log(ps[t + 1] / ps[t])) for t in range(len(ps) - 1)]
-            lg = frac(math.log(q / ps[k - 1])) if k > 0 else Fr(0)
-            if origin:
-                fp, fl = [Fr(0)] + fp, [Fr(0)] + fl
-            reqs.append("%s [%s] [%s] [%s] %s %s %s" % ("spd" if origin or rng.random() < 0.3 else "sp", ";".join(map(qstr, fp)), ";".join(map(qstr, fl)), ";".join(map(qstr, logs)) if logs else "",
-                                                         qstr(fq), qstr(lq), qstr(lg)))
-            ctx.append((iso, ps, ls, q, k, des))
+                               loading_unit="mmol", material_basis="mass", material_unit="g", branch=marks)
+        for br, (ps, ls, origin) in branches.items():
+            qs = [ps[0] * 0.3, ps[0], ps[-1]] + [rng.uniform(ps[0], ps[-1]) for _ in range(3)] + [rng.choice(ps)]
+            for q in qs:
+                k = sum(1 for p in ps if p < q)
+                # linear interpolant at q (exact rational), logs as the doubles Python computes
+                fp, fl, fq = [frac(p) for p in ps], [frac(l) for l in ls], frac(q)
+                lq = fl[0] if k == 0 else interp_exact(fp, fl, fq)
+                logs = [frac(math.log(ps[t + 1] / ps[t])) for t in range(len(ps) - 1)]
+                lg = frac(math.log(q / ps[k - 1])) if k > 0 else Fr(0)
+                if origin:
+                    fp, fl = [Fr(0)] + fp, [Fr(0)] + fl
+                reqs.append("%s [%s] [%s] [%s] %s %s %s" % ("spd" if origin or rng.random() < 0.3 else "sp", ";".join(map(qstr, fp)), ";".join(map(qstr, fl)), ";".join(map(qstr, logs)) if logs else "",
+                                                             qstr(fq), qstr(lq), qstr(lg)))
+                ctx.append((iso, br, ps, ls, q, k, branches))
     try:
         reps = ck.drive("SpreadPoint", reqs)
     except Exception as e:
         reps = None
         ck.broken.append({"step": "driver SpreadPoint", "what": str(e)[:500]})
-    n_dis = 0
-    for idx, (iso, ps, ls, q, k, des) in enumerate(ctx):
-        sig = {"class": "PointIsotherm", "k": min(k, 2)}
-        fresh = pg.PointIsotherm.from_isotherm(iso, isotherm_data=iso.data_raw.copy(), pressure_key="pressure", loading_key="loading",
-                                                branch=list(iso.data_raw["branch"])) if False else iso
+    n_dis, nfail_r = 0, {}
+
+    def fail_r(sig, detail):
+        key = (sig["clause"], sig["branch"])
+        nfail_r[key] = nfail_r.get(key, 0) + 1
+        if nfail_r[key] <= 4:           # a handful of replay files per (clause, branch) is enough
+            ck.fail_case(sig, detail)
+
+    for idx, (iso, br, ps, ls, q, k, branches) in enumerate(ctx):
+        sig = {"class": "PointIsotherm", "k": min(k, 2), "branch": br}
+        bkw = {"branch": br} if br != "ads" or idx % 2 else {}          # the adsorption branch is also the default
+        stored = {b: {"pressures_increasing": v[0], "loadings": v[1], "measured_origin": v[2]} for b, v in branches.items()}
+        base = {"branch": br, "pressures": ps, "loadings": ls, "query": q, "isotherm_branches": stored}
         try:
-            got = float(iso.spreading_pressure_at(q))
+            got = float(iso.spreading_pressure_at(q, **bkw))
         except Exception as e:  # noqa
             got = ("err", err_class(e))
         # independent reference: Henry part + per-segment quadrature of the chord
@@ -460,40 +505,43 @@ def run(ck):
         for a, b in zip(knots, knots[1:]):
             if b > a:
                 ref += ref_integral(qfun, a, b, panels=2)
-        ck.count(("point", tuple(ps), tuple(ls), q), bucket=f"point:k={min(k, 3)}",
-                 sample={"pressures": ps, "loadings": ls, "query": q, "implementation": got, "model": reps[idx] if reps else None} if idx % 61 == 0 else None)
-        if isinstance(got, tuple) or abs(got - ref) > 1e-9 * max(abs(ref), 1e-12):
-            ck.fail_case({**sig, "clause": "integral of the interpolant"}, {"pressures": ps, "loadings": ls, "query": q, "got": got, "reference": ref})
+        ck.count(("point", br, tuple(ps), tuple(ls), q), bucket=f"point:{br}:k={min(k, 3)}",
+                 sample={**base, "implementation": got, "model": reps[idx] if reps else None} if idx % 61 == 0 else None)
+        floor = cond_floor(ps, ls, q)
+        if isinstance(got, tuple) or not abs(got - ref) <= 1e-9 * max(abs(ref), 1e-12) + floor:
+            fail_r({**sig, "clause": "integral of the interpolant"}, {**base, "got": got, "reference": ref, "rounding_floor_of_the_formula": floor})
             continue
         if reps is not None:
             r = reps[idx].split()
-            if not (r[0] == "ok" and close(got, Fr(r[1]), rel=1e-10)):
+            if not (r[0] == "ok" and (close(got, Fr(r[1]), rel=1e-10) or abs(got - float(Fr(r[1]))) <= floor)):
                 n_dis += 1
                 if n_dis <= 3:
-                    ck.broken.append({"step": "correspondence Model/SpreadPoint.lean", "what": {"request": reqs[idx][:300], "model": reps[idx][:80], "implementation": got}})
+                    ck.broken.append({"step": "correspondence Model/SpreadPoint.lean", "what": {"branch": br, "request": reqs[idx][:300], "model": reps[idx][:80], "implementation": got}})
         # unit arguments: pressure given in kPa is converted first; loading unit scales the result
         if idx % 2 == 0 and ps[0] < q < ps[-1] * 0.999:
             try:
-                alt = float(iso.spreading_pressure_at(q * 100, pressure_unit="kPa"))
-                alt2 = float(iso.spreading_pressure_at(q, loading_unit="mol"))
+                alt = float(iso.spreading_pressure_at(q * 100, pressure_unit="kPa", **bkw))
+                alt2 = float(iso.spreading_pressure_at(q, loading_unit="mol", **bkw))
             except Exception as e:  # noqa
                 alt, alt2 = ("err", err_class(e)), None
-            if isinstance(alt, tuple) or abs(alt - got) > 1e-10 * abs(got) or abs(alt2 * 1000 - got) > 1e-10 * abs(got):
-                ck.fail_case({**sig, "clause": "unit arguments converted first"}, {"pressures": ps, "loadings": ls, "query": q, "native": got, "kPa": alt, "mol": alt2})
-        # history independence of the value: after cubic / desorption-branch queries the adsorption Π is the same
+            if isinstance(alt, tuple) or not abs(alt - got) <= 1e-10 * abs(got) + 2 * floor or not abs(alt2 * 1000 - got) <= 1e-10 * abs(got) + 2 * floor:
+                fail_r({**sig, "clause": "unit arguments converted first"}, {**base, "native": got, "kPa": alt, "mol": alt2})
+        # history independence of the value: after cubic queries and queries on the OTHER branch the value on this branch is the same
         if idx % 3 == 0:
+            other = [b for b in branches if b != br]
             try:
-                iso.loading_at(ps[0] * 1.0001 if len(ps) < 4 else (ps[1] + ps[2]) / 2, interpolation_type="cubic" if len(ps) >= 4 else "linear")
-                if des:
-                    iso.loading_at(des[0][0], branch="des")
+                iso.loading_at(ps[0] * 1.0001 if len(ps) < 4 else (ps[1] + ps[2]) / 2, branch=br, interpolation_type="cubic" if len(ps) >= 4 else "linear")
+                for ob in other:
+                    iso.loading_at(branches[ob][0][0], branch=ob)
+                    iso.spreading_pressure_at(branches[ob][0][-1], branch=ob)
             except Exception:
                 pass
             try:
-                again = float(iso.spreading_pressure_at(q))
+                again = float(iso.spreading_pressure_at(q, **bkw))
             except Exception as e:  # noqa
                 again = ("err", err_class(e))
             if again != got:
-                ck.fail_case({**sig, "clause": "same value after other queries"}, {"pressures": ps, "loadings": ls, "query": q, "first": got, "after": again})
+                fail_r({**sig, "clause": "same value after other queries"}, {**base, "first": got, "after": again})
 
     # ------------------------------------------------------------------ 3b. point isotherms: small / closely spaced pressures, queries a hair off the knots,
     #                                                                        in every pressure unit and mode of data and query
@@ -501,11 +549,11 @@ def run(ck):
     # the exact-rational fold run on the data AS CONVERTED to the unit of the query is the prediction, whatever the magnitudes of the numbers.
     p0_pa = float(pg.Adsorbate.find("N2").saturation_pressure(77.355, unit="Pa"))
     reqs2, ctx2 = [], []
-    for i in range(ck.n(24, 150)):
-        native = rng.choice(REPS)
+
+    def dense_branch():
         ps = dense_pressures(rng)
         if len(ps) < 2:
-            continue
+            return None
         clustered = any(b - a < 1e-3 * a for a, b in zip(ps, ps[1:]))
         shape = smooth_loading(rng)
         ls = [shape(x / ps[len(ps) // 2]) for x in ps]
@@ -515,8 +563,28 @@ def run(ck):
             ls = list(np.cumsum([rng.uniform(0.01, 2) for _ in ps]))
         ls = [float(l) for l in ls]
         if not all(b > a for a, b in zip(ls, ls[1:])) or ls[0] <= 0:
+            return None
+        return ps, ls
+
+    def increasing(br, vals):
+        """the rows of a branch in increasing pressure order: desorption rows are stored downwards"""
+        vals = [float(x) for x in vals]
+        return vals[::-1] if br == "des" else vals
+
+    for i in range(ck.n(28, 170)):
+        native = rng.choice(REPS)
+        bd = {"ads": dense_branch()}
+        if bd["ads"] is None:
             continue
-        iso = pg.PointIsotherm(pressure=ps, loading=ls, material="pgv_m", adsorbate="N2", temperature=77.355, temperature_unit="K",
+        if rng.random() < 0.5:
+            # hysteresis: an independent desorption branch, stored after the adsorption rows in order of decreasing pressure
+            d = dense_branch()
+            if d is not None:
+                bd["des"] = d
+        st_p = [x for br in bd for x in increasing(br, bd[br][0])]
+        st_l = [x for br in bd for x in increasing(br, bd[br][1])]
+        marks = [0 if br == "ads" else 1 for br in bd for _ in bd[br][0]]
+        iso = pg.PointIsotherm(pressure=st_p, loading=st_l, branch=marks, material="pgv_m", adsorbate="N2", temperature=77.355, temperature_unit="K",
                                pressure_mode=native[0], pressure_unit=native[1], loading_basis="molar", loading_unit="mmol",
                                material_basis="mass", material_unit="g")
         if rng.random() < 0.25:
@@ -524,24 +592,28 @@ def run(ck):
             target = rng.choice([r for r in REPS if r != native])
             try:
                 iso.convert_pressure(mode_to=target[0], unit_to=target[1])
-                ps_new = [float(x) for x in iso.pressure(branch="ads")]
+                new = {br: increasing(br, iso.pressure(branch=br)) for br in bd}
             except Exception as e:  # noqa
                 ck.fail_case({"class": "PointIsotherm", "clause": "unit arguments converted first", "outcome": err_class(e)},
-                             {"pressures": ps, "stored_in": native, "convert_pressure_to": target, "error": repr(e)})
+                             {"pressures": st_p, "branch_marks": marks, "stored_in": native, "convert_pressure_to": target, "error": repr(e)})
                 continue
-            if not all(b > a for a, b in zip(ps_new, ps_new[1:])):
+            if not all(b > a for br in bd for a, b in zip(new[br], new[br][1:])):
                 continue
-            native, ps = target, ps_new
+            native, bd = target, {br: (new[br], bd[br][1]) for br in bd}
         f_nat = rep_factor(native, p0_pa)
         reps = [native] + rng.sample([r for r in REPS if r != native], 2)
         for rep in reps:
-            foreign = rep != native
+          foreign = rep != native
+          for br in (list(bd) if not foreign else [rng.choice(list(bd))]):
+            ps, ls = bd[br]
             kw = dict(pressure_mode=rep[0], pressure_unit=rep[1]) if foreign or rng.random() < 0.3 else {}
+            if br != "ads" or rng.random() < 0.5:
+                kw["branch"] = br
             try:
-                P = [float(x) for x in iso.pressure(branch="ads", pressure_mode=rep[0], pressure_unit=rep[1])] if foreign else list(ps)
+                P = increasing(br, iso.pressure(branch=br, pressure_mode=rep[0], pressure_unit=rep[1])) if foreign else list(ps)
             except Exception as e:  # noqa
                 ck.fail_case({"class": "PointIsotherm", "clause": "unit arguments converted first", "outcome": err_class(e)},
-                             {"pressures": ps, "native": native, "requested": rep, "error": repr(e)})
+                             {"pressures": ps, "branch": br, "native": native, "requested": rep, "error": repr(e)})
                 continue
             if not all(b > a for a, b in zip(P, P[1:])):
                 continue          # the conversion merged two neighbours (1-ulp spacing): no longer increasing data in this unit
@@ -559,7 +631,7 @@ def run(ck):
             for q in qs:
                 req, k = fold_request(P, ls, q)
                 reqs2.append(req)
-                ctx2.append((iso, native, rep, kw, P, ls, q, k, q * rep_factor(rep, p0_pa) / f_nat, ps))
+                ctx2.append((iso, native, rep, kw, P, ls, q, k, q * rep_factor(rep, p0_pa) / f_nat, ps, br))
     try:
         reps2 = ck.drive("SpreadPoint", reqs2)
     except Exception as e:
@@ -568,14 +640,15 @@ def run(ck):
     n_dis2, worst_pt, nfail = 0, {"reference": 0.0, "fold": 0.0, "unit": 0.0}, {}
 
     def fail_pt(clause, detail, **more):
-        nfail[clause] = nfail.get(clause, 0) + 1
-        if nfail[clause] <= 4:
-            ck.fail_case({"class": "PointIsotherm", "clause": clause, **more}, detail)
+        key = (clause, detail.get("branch"))
+        nfail[key] = nfail.get(key, 0) + 1
+        if nfail[key] <= 4:
+            ck.fail_case({"class": "PointIsotherm", "clause": clause, "branch": detail.get("branch"), **more}, detail)
 
-    last = None          # (iso, rep) -> previous (q, Π) of the same isotherm in the same representation, queries increasing
-    for idx, (iso, native, rep, kw, P, ls, q, k, q_nat, ps) in enumerate(ctx2):
-        detail = {"pressures_as_stored": ps, "stored_in": native, "loadings": ls, "query": q, "query_in": rep, "keyword_arguments": kw,
-                  "pressures_in_unit_of_query": P}
+    last = None          # (iso, rep, branch) -> previous (q, Π) of the same branch of the same isotherm in the same representation, queries increasing
+    for idx, (iso, native, rep, kw, P, ls, q, k, q_nat, ps, br) in enumerate(ctx2):
+        detail = {"branch": br, "branch_pressures_increasing": ps, "stored_in": native, "loadings": ls, "query": q, "query_in": rep, "keyword_arguments": kw,
+                  "pressures_in_unit_of_query": P, "note": "desorption rows are stored after the adsorption rows in the reverse (decreasing) order" if br == "des" else ""}
         try:
             got = float(iso.spreading_pressure_at(q, **kw))
         except Exception as e:  # noqa
@@ -583,7 +656,7 @@ def run(ck):
             last = None
             continue
         ref = exact_ref(P, ls, q)
-        ck.count(("point-dense", tuple(ps), native, rep, q), bucket="point-dense:" + ("native" if rep == native else "foreign") + f":k={min(k, 3)}",
+        ck.count(("point-dense", br, tuple(ps), native, rep, q), bucket=f"point-dense:{br}:" + ("native" if rep == native else "foreign") + f":k={min(k, 3)}",
                  sample={**detail, "implementation": got, "reference": ref, "model": reps2[idx][:60] if reps2 else None} if idx % 997 == 0 else None)
         worst_pt["reference"] = max(worst_pt["reference"], abs(got - ref) / abs(ref))
         if not abs(got - ref) <= 1e-9 * abs(ref):
@@ -601,7 +674,7 @@ def run(ck):
         # the same pressure given in the unit of the data
         if rep != native and ps[0] * 1e-3 < q_nat <= ps[-1] * (1 - 1e-12):
             try:
-                nat = float(iso.spreading_pressure_at(q_nat))
+                nat = float(iso.spreading_pressure_at(q_nat, branch=br))
             except Exception as e:  # noqa
                 nat = None
             if nat is not None:
@@ -609,7 +682,7 @@ def run(ck):
                 if not abs(nat - got) <= 1e-9 * abs(nat):
                     fail_pt("unit arguments converted first", {**detail, "got": got, "same_pressure_in_unit_of_data": q_nat, "got_there": nat})
         # increments: Π(b) - Π(a) = ∫_a^b n dln p lies between min n and max n on [a, b] times ln(b/a)
-        if last is not None and last[0] is iso and last[1] == rep and q > last[2]:
+        if last is not None and last[0] is iso and last[1] == (rep, br) and q > last[2]:
             a, pa = last[2], last[3]
             fp, fl = [frac(x) for x in P], [frac(x) for x in ls]
             vals = [interp_exact(fp, fl, frac(a)), interp_exact(fp, fl, frac(q))] + [fl[j] for j in range(len(P)) if a < P[j] < q]
@@ -619,9 +692,165 @@ def run(ck):
             if not (lo_b - slack <= got - pa <= hi_b + slack):
                 fail_pt("increment between min and max loading times d ln p", {**detail, "previous_query": a, "previous_value": pa, "got": got,
                                                                                "increment": got - pa, "bounds": [lo_b, hi_b]})
-        last = (iso, rep, q, got)
+        last = (iso, (rep, br), q, got)
     ck.cov["point_dense"] = {"cases": len(ctx2), "correspondence_disagreements": n_dis2,
                              "worst_relative_deviation": {k: float(f"{v:.3g}") for k, v in worst_pt.items()}}
+
+    # ------------------------------------------------------------------ 3c. point isotherms: the RESULT in a requested loading / material representation
+    # spreading_pressure_at(p, loading_basis=, loading_unit=, material_basis=, material_unit=[, pressure_mode=, pressure_unit=]) is the integral of the
+    # interpolant of the data AS CONVERTED to that representation: (A) the exact-rational fold / reference on the columns the accessors return for the same
+    # arguments (C03 ties those to the SI tables), (B) the same query asked natively from a copy that was converted permanently.  Any subset of the four
+    # loading / material arguments, alone and combined, with and without a pressure unit / mode, on both branches, below the first point, inside
+    # segments, at and a hair off the knots, at the edge of the data.  All loading conversions are linear, so Π simply scales — unless one part of the
+    # method converts and another does not.
+    # TODO(consequence of the known findings S5a-S5g of C03, reported): when a fraction / percent loading basis (stored or requested) meets a CHANGE of
+    # the material basis or unit, `PointIsotherm.loading` and `PointIsotherm.loading_at` convert differently on the unchanged tree (loading_at hands the
+    # STORED material representation to c_loading, loading the requested one; permanent conversion of a fraction isotherm relabels the material unit
+    # without converting), so spreading_pressure_at mixes two conversions: e.g. stored mass[cg] per mass[dg], requested loading_basis='percent',
+    # material_unit='mg': Π(0.18265) = 7.457 vs 9.227 for the converted columns.  That region stays out of the generator until S5 is repaired.
+    import c01
+    pg.Material("pgv_c11_mat", store=True, density=2.3, molar_mass=321.0)
+    LST = [(b, u) for b in ("molar", "mass", "volume_gas", "volume_liquid") for u in c01.LTABLE[b]] + [("fraction", None), ("percent", None)]
+    MST = [(b, u) for b in ("mass", "volume", "molar") for u in c01.MTABLE[b]]
+
+    def clone_point(iso):
+        """a copy of a point isotherm (never deepcopy)"""
+        return pg.PointIsotherm(isotherm_data=iso.data_raw.copy(), pressure_key=iso.pressure_key, loading_key=iso.loading_key, **iso.to_dict())
+
+    reqs3, ctx3 = [], []
+    n_s5 = 0
+    for i in range(ck.n(24, 140)):
+        nl, nm, npz = rng.choice(LST), rng.choice(MST), rng.choice(REPS)
+        bd = {}
+        for br in ("ads", "des") if rng.random() < 0.5 else ("ads",):
+            ps = sorted({round(math.exp(rng.uniform(-4, 2)), rng.randint(2, 6)) for _ in range(rng.randint(2, 10))})
+            ps = [p for p in ps if p > 0]
+            if len(ps) >= 2:
+                ls = [float(v) for v in np.cumsum([rng.uniform(0.05, 2) for _ in ps])] if rng.random() < 0.6 else [rng.uniform(0.01, 5) for _ in ps]
+                bd[br] = (ps, ls)
+        if "ads" not in bd:
+            continue
+        st_p = [x for br in bd for x in increasing(br, bd[br][0])]
+        st_l = [x for br in bd for x in increasing(br, bd[br][1])]
+        marks = [0 if br == "ads" else 1 for br in bd for _ in bd[br][0]]
+        iso = pg.PointIsotherm(pressure=st_p, loading=st_l, branch=marks, material="pgv_c11_mat", adsorbate="N2", temperature=77.355, temperature_unit="K",
+                               pressure_mode=npz[0], pressure_unit=npz[1], loading_basis=nl[0], loading_unit=nl[1], material_basis=nm[0], material_unit=nm[1])
+        for _ in range(3):
+            kind = rng.choice(["loading_unit", "loading_basis", "material_unit", "material_basis", "loading_basis+material_basis", "loading_unit+material_unit",
+                               "loading_basis+material_unit", "loading_unit+material_basis"])
+            rl, rm, kw = nl, nm, {}
+            if "loading_unit" in kind:
+                if nl[1] is None:
+                    continue          # a fraction has no unit
+                rl = (nl[0], rng.choice([u for u in c01.LTABLE[nl[0]] if u != nl[1]]))
+                kw["loading_unit"] = rl[1]
+                if rng.random() < 0.5:
+                    kw["loading_basis"] = rl[0]
+            if "loading_basis" in kind:
+                rl = rng.choice([x for x in LST if x[0] != nl[0]])
+                kw["loading_basis"] = rl[0]
+                if rl[1] is not None:
+                    kw["loading_unit"] = rl[1]
+            if "material_unit" in kind:
+                rm = (nm[0], rng.choice([u for u in c01.MTABLE[nm[0]] if u != nm[1]]))
+                kw["material_unit"] = rm[1]
+                if rng.random() < 0.5:
+                    kw["material_basis"] = rm[0]
+            if "material_basis" in kind:
+                rm = rng.choice([x for x in MST if x[0] != nm[0]])
+                kw["material_basis"], kw["material_unit"] = rm
+            if (nl[1] is None or rl[1] is None) and rm != nm:
+                n_s5 += 1             # S5 region (see the TODO above)
+                continue
+            rp = npz
+            if rng.random() < 0.3:
+                rp = rng.choice([r for r in REPS if r != npz])
+            pkw = dict(pressure_mode=rp[0], pressure_unit=rp[1]) if rp != npz or rng.random() < 0.2 else {}
+            # the permanently converted copy
+            twin = clone_point(iso)
+            try:
+                twin.convert_material(basis_to=rm[0], unit_to=rm[1])
+                twin.convert_loading(basis_to=rl[0], unit_to=rl[1])
+                if rp != npz:
+                    twin.convert_pressure(mode_to=rp[0], unit_to=rp[1])
+            except Exception as e:  # noqa
+                ck.fail_case({"class": "PointIsotherm", "clause": "unit arguments converted first", "outcome": err_class(e)},
+                             {"stored_in": [npz, nl, nm], "permanent_conversion_to": [rp, rl, rm], "error": repr(e)})
+                continue
+            for br in bd:
+                ps, ls = bd[br]
+                bkw = {"branch": br} if br != "ads" or rng.random() < 0.5 else {}
+                try:
+                    P = increasing(br, iso.pressure(branch=br, **pkw))
+                    L = increasing(br, iso.loading(branch=br, **kw))
+                except Exception as e:  # noqa
+                    ck.fail_case({"class": "PointIsotherm", "clause": "unit arguments converted first", "outcome": err_class(e)},
+                                 {"stored_in": [npz, nl, nm], "branch": br, "keyword_arguments": {**kw, **pkw}, "error": repr(e)})
+                    continue
+                if not all(b > a for a, b in zip(P, P[1:])):
+                    continue
+                foreign = rp != npz
+                qs = [P[0] * rng.uniform(0.05, 0.95), P[0], P[-1], rng.uniform(P[0], P[-1]), (P[0] + P[1]) / 2]
+                for kk in rng.sample(range(len(P)), min(len(P), 2)):
+                    pk = P[kk]
+                    qs += [pk, pk * (1 + 1e-12), pk * (1 - 1e-12), pk * (1 + logu(rng, 1e-9, 1e-2)), float(np.nextafter(pk, np.inf)), float(np.nextafter(pk, 0.0))]
+                hi = P[-1] * (1 - 1e-12) if foreign else P[-1]          # (the foreign-unit round trip at the last point: see the TODO of section 3b)
+                qs = sorted({q for q in qs if 0 < q <= hi and not (foreign and abs(q - P[0]) < 1e-12 * P[0] and q != P[0])})
+                for q in qs:
+                    req, k = fold_request(P, L, q)
+                    reqs3.append(req)
+                    ctx3.append((iso, twin, br, {**bkw, **kw, **pkw}, bkw, (npz, nl, nm), (rp, rl, rm), ps, ls, P, L, q, k, kind))
+    try:
+        reps3 = ck.drive("SpreadPoint", reqs3)
+    except Exception as e:
+        reps3 = None
+        ck.broken.append({"step": "driver SpreadPoint (requested loading / material representation)", "what": str(e)[:500]})
+    n_dis3, worst_u, nfail3 = 0, {"converted columns": 0.0, "fold": 0.0, "permanently converted copy": 0.0}, {}
+
+    def fail_u(clause, br, kind, detail, **more):
+        key = (clause, br, kind)
+        nfail3[key] = nfail3.get(key, 0) + 1
+        if nfail3[key] <= 2:
+            ck.fail_case({"class": "PointIsotherm", "clause": clause, "branch": br, "arguments": kind, **more}, detail)
+
+    for idx, (iso, twin, br, allkw, bkw, stored, wanted, ps, ls, P, L, q, k, kind) in enumerate(ctx3):
+        detail = {"branch": br, "stored_in": {"pressure": stored[0], "loading": stored[1], "material": stored[2]}, "branch_pressures_increasing": ps, "branch_loadings": ls,
+                  "keyword_arguments": allkw, "requested": {"pressure": wanted[0], "loading": wanted[1], "material": wanted[2]},
+                  "pressures_in_requested_representation": P, "loadings_in_requested_representation": L, "query": q}
+        ck.count(("point-units", br, stored, wanted, tuple(ps), q), bucket=f"point-result-units:{br}:{kind}:k={min(k, 2)}",
+                 sample={**detail, "model": reps3[idx][:60] if reps3 else None} if idx % 499 == 0 else None)
+        try:
+            got = float(iso.spreading_pressure_at(q, **allkw))
+        except Exception as e:  # noqa
+            fail_u("unit arguments converted first", br, kind, {**detail, "got": repr(e)}, outcome=err_class(e))
+            continue
+        ref = exact_ref(P, L, q)
+        floor = cond_floor(P, L, q)
+        worst_u["converted columns"] = max(worst_u["converted columns"], abs(got - ref) / abs(ref))
+        if not abs(got - ref) <= 1e-9 * abs(ref) + floor:
+            fail_u("unit arguments converted first", br, kind, {**detail, "got": got, "integral_of_the_converted_interpolant": ref, "rounding_floor_of_the_formula": floor})
+            continue
+        if reps3 is not None:
+            r = reps3[idx].split()
+            if r[0] == "ok":
+                worst_u["fold"] = max(worst_u["fold"], abs(got - float(Fr(r[1]))) / abs(ref))
+            if not (r[0] == "ok" and (close(got, Fr(r[1]), rel=1e-10) or abs(got - float(Fr(r[1]))) <= floor)):
+                n_dis3 += 1
+                if n_dis3 <= 3:
+                    ck.broken.append({"step": "correspondence Model/SpreadPoint.lean (requested representation)", "what": {"request": reqs3[idx][:300], "model": reps3[idx][:80], "implementation": got}})
+        try:
+            nat = float(twin.spreading_pressure_at(q, **bkw))
+        except Exception as e:  # noqa
+            # (the copy stores the CONVERTED pressures: a query one ulp inside the edge in the requested unit may lie outside after the permanent conversion)
+            nat = None if q > P[-1] * (1 - 1e-9) else ("err", err_class(e))
+        if isinstance(nat, tuple):
+            fail_u("unit arguments converted first", br, kind, {**detail, "got": got, "permanently_converted_copy_asked_natively": nat})
+        elif nat is not None:
+            worst_u["permanently converted copy"] = max(worst_u["permanently converted copy"], abs(got - nat) / abs(nat))
+            if not abs(got - nat) <= 1e-9 * abs(nat) + floor:
+                fail_u("unit arguments converted first", br, kind, {**detail, "got": got, "permanently_converted_copy_asked_natively": nat})
+    ck.cov["point_result_units"] = {"cases": len(ctx3), "correspondence_disagreements": n_dis3, "set_aside_S5_region": n_s5,
+                                    "worst_relative_deviation": {k: float(f"{v:.3g}") for k, v in worst_u.items()}}
 
     # ------------------------------------------------------------------ 4. model isotherm: foreign units / modes converted first
     for name in ("Langmuir", "Toth"):
@@ -711,9 +940,10 @@ def run(ck):
                       "of the class's own loading/x, differences, zero; quad-based models (Toth, Jensen-Seaton, DR, DA) over the parameter box with its corners "
                       "(a = RT/e down to 0.083, m = 1 / near 1 / 3, heterogeneity exponents down to 0.1), p from 1e-300 to the validity range: Π vs the integral "
                       "anchored at the origin (u = ln p panels down to underflow; DA m = 1 in closed form), non-negative, non-decreasing, zero at 0; "
-                      "point isotherms: seeded increasing pressure grids (2-14 points, optional desorption branch) x "
-                      "queries below/at/inside/at the edge: real method vs exact-rational fold model and vs per-segment quadrature, after cubic/desorption "
-                      "queries, with unit arguments; dense point isotherms: pressures 1e-9 … 1e5 in all 8 units and both relative modes, neighbours 1e-9 relative / "
+                      "point isotherms: seeded increasing pressure grids (2-14 points; 60 % hysteretic: an independent desorption branch of 2-14 points "
+                      "stored after the adsorption rows in decreasing pressure order, optionally down to (0, 0)) x both branches x "
+                      "queries below/at/inside/at the edge: real method vs exact-rational fold model (desorption rows reversed) and vs per-segment quadrature, after cubic "
+                      "queries and queries on the other branch, with unit arguments; dense point isotherms (half of them hysteretic, both branches queried): pressures 1e-9 … 1e5 in all 8 units and both relative modes, neighbours 1e-9 relative / "
                       "1e-10 absolute apart, queries at, one ulp / 1e-15 … 1e-5 relative / 1e-11 … 1e-7 absolute above and below knots, in the unit of the data and "
                       "in two other units/modes: real method vs the exact-rational fold on the converted data, vs an exact-rational reference, vs the same "
                       "pressure in the unit of the data, increments between min and max loading x d ln p; model isotherms stored and queried in every unit/mode; "
